@@ -69,6 +69,8 @@ def install(ctx, repo, probes):
               "shift/ref-option-over-env", "shift/plus-signed-offset",
               "shift/print-format", "shift/parse-format",
               "shift/print-strftime", "shift/print-strftime-fallback",
+              "shift/parse-format-zone", "shift/parse-format-zone-utc",
+              "shift/ctime-notation", "shift/ctime-notation-nominal-offset",
               "shift/print-strftime-fallback-week-date", "diff/plain", "diff/offsets",
               "diff/as-total", "diff/negative", "diff/zero", "diff/zero-as-total",
               "diff/same-nominal-offsets-both-sides", "total/zero", "rec/forward", "rec/reverse",
@@ -255,6 +257,29 @@ def spell_offset(rng, notation, nominal_ok=True):
         w = rng.randint(1, 60)
         secs = w * 7 * 86400
         parts = "%dW" % w
+    elif unit == 1 and rng.random() < 0.08:
+        # the alternative (date-time like) spelling, positive only; the
+        # seconds may hide in a decimal minute or hour
+        d, hh, mm = rng.randint(0, 28), rng.randrange(24), rng.randrange(60)
+        form = rng.choice(("hms", "hm,", "h,", "basic"))
+        if form == "hms":
+            ss = rng.randrange(60)
+            text = "P0000-00-%02dT%02d:%02d:%02d" % (d, hh, mm, ss)
+            secs = ss
+        elif form == "basic":
+            ss = rng.randrange(60)
+            text = "P000000%02dT%02d%02d%02d" % (d, hh, mm, ss)
+            secs = ss
+        elif form == "hm,":
+            text = "P0000-00-%02dT%02d:%02d,5" % (d, hh, mm)
+            secs = 30
+        else:
+            mm = rng.choice((0, 15, 30, 45))
+            text = "P0000-00-%02dT%02d,%s" % (
+                d, hh, {0: "0", 15: "25", 30: "5", 45: "75"}[mm])
+            secs = 0
+        secs += d * 86400 + hh * 3600 + mm * 60
+        return text, (0, 0, secs)
     else:
         v = rng.random()
         if nominal_ok and v < 0.25:
@@ -723,6 +748,81 @@ def make_parse_format(rng, mode):
             "nontrivial": True}
 
 
+def make_parse_format_zone(rng, mode):
+    """a --parse-format that reads a numeric zone (%z), with and without
+    --utc: the output uses the same format, in the input's zone or in UTC"""
+    y = gen.rand_year(rng, 1000, 8999)
+    rd = gen.rand_rd(rng, mode, y, bias=0.6)
+    yy, mm, dd = R.rd_to_ymd(mode, rd)
+    H, M, S = rng.randrange(24), rng.randrange(60), rng.randrange(60)
+    off = rng.choice(((5, 30), (-3, -30), (0, 0), (1, 0), (-11, 0), (13, 45)))
+    utc = rng.random() < 0.6
+
+    def zone(minutes):
+        sign = "-" if minutes < 0 else "+"
+        return "%s%02d%02d" % (sign, abs(minutes) // 60, abs(minutes) % 60)
+    tmpl = "{y:04d}-{m:02d}-{d:02d}T{H:02d}:{M:02d}:{S:02d}"
+    offm = off[0] * 60 + off[1]
+    text = tmpl.format(y=yy, m=mm, d=dd, H=H, M=M, S=S) + zone(offm)
+    pt = {"rep": "cal", "date": (yy, mm, dd), "sod": F(H * 3600 + M * 60 + S),
+          "off": offm}
+    if utc:
+        pt = to_utc(mode, pt)
+    otext, dt = spell_offset(rng, {"tform": "hms", "kind": "complete"})
+    res = R.pt_add(mode, pt, dt)
+    if not 1000 <= res["date"][0] <= 8999:
+        return make_parse_format_zone(rng, mode)
+    sod = int(res["sod"])
+    out = tmpl.format(y=res["date"][0], m=res["date"][1], d=res["date"][2],
+                      H=sod // 3600, M=sod % 3600 // 60, S=sod % 60) + \
+        zone(res["off"])
+    argv = [rng.choice(("--parse-format", "-p")), "%Y-%m-%dT%H:%M:%S%z", text,
+            "--offset=" + otext, "--calendar", mode]
+    if utc:
+        argv.insert(rng.randrange(len(argv) - 1) if False else 0,
+                    rng.choice(("--utc", "-u")))
+    return {"op": "run", "argv": argv, "env": {}, "local": [0, 0],
+            "expect": {"stdout": out + "\n"},
+            "classes": ["shift/parse-format-zone" + ("-utc" if utc else ""),
+                        "calendar/" + mode],
+            "nontrivial": True}
+
+
+def make_ctime(rng):
+    """the documented ctime notation (Gregorian, C locale): read, shifted -
+    also by months and years from leap days and month ends - and printed
+    back in the same notation"""
+    import datetime as _dt
+    mode = "gregorian"
+    y = rng.choice((2020, 2021, 2019, 2024, 2100, 1999,
+                    gen.rand_year(rng, 1000, 8999)))
+    rd = gen.rand_rd(rng, mode, y, bias=0.6)
+    if rng.random() < 0.4:
+        rd = R.ymd_to_rd(mode, y, *rng.choice(((3, 1), (2, 28), (12, 31),
+                                               (1, 31), (3, 31))))
+    yy, mm, dd = R.rd_to_ymd(mode, rd)
+    H, M, S = rng.randrange(24), rng.randrange(60), rng.randrange(60)
+    fmt = "%a %b %d %H:%M:%S %Y"
+    text = _dt.datetime(yy, mm, dd, H, M, S).strftime(fmt)
+    pt = {"rep": "cal", "date": (yy, mm, dd), "sod": F(H * 3600 + M * 60 + S),
+          "off": 0}
+    offs = [spell_offset(rng, {"tform": "hms", "kind": "complete"})
+            for _ in range(rng.choice((0, 1, 1, 2)))]
+    res = apply_offsets(mode, pt, [o[1] for o in offs])
+    if not 1000 <= res["date"][0] <= 8999:
+        return make_ctime(rng)
+    sod = int(res["sod"])
+    out = _dt.datetime(res["date"][0], res["date"][1], res["date"][2],
+                       sod // 3600, sod % 3600 // 60, sod % 60).strftime(fmt)
+    argv = [text] + offset_args(rng, [o[0] for o in offs])
+    cls = ["shift/ctime-notation"]
+    if any(o[1][0] or o[1][1] for o in offs):
+        cls.append("shift/ctime-notation-nominal-offset")
+    return {"op": "run", "argv": argv, "env": {}, "local": [0, 0],
+            "expect": {"stdout": out + "\n"}, "classes": cls,
+            "nontrivial": True}
+
+
 def make_malformed(rng):
     good = "2000-01-01T00:00:00Z"
     g = rng.choice(GARBAGE)
@@ -870,8 +970,8 @@ def workload(ctx, repo):
                 else rng.choice(("option", "env", "neither", "both", "both"))
             case = make_shift(rng, (mode, how))
         elif v < 11:
-            case = make_print_format(rng, mode) if (k // 20) % 2 else \
-                make_print_strftime(rng)
+            case = (make_print_format(rng, mode), make_print_strftime(rng),
+                    make_ctime(rng))[(k // 20) % 3]
         elif v < 14:
             case = make_diff(rng, mode)
         elif v == 14:
@@ -879,7 +979,8 @@ def workload(ctx, repo):
         elif v < 17:
             case = make_rec(rng, mode)
         elif v == 17:
-            case = make_parse_format(rng, mode)
+            case = make_parse_format(rng, mode) if (k // 20) % 2 else \
+                make_parse_format_zone(rng, mode)
         else:
             case = make_malformed(rng)
         ctx.case = case
